@@ -1326,7 +1326,17 @@ def tensor_op(interp: Any, op: str, args: list[V], kwargs: dict[str, V], st: Sta
         return unk("masked_select")
     if op == "triu" or op == "tril":
         return t
-    if op == "scatter" or op == "scatter_" or op == "scatter_add" or op == "index_add":
+    if op in ("scatter", "scatter_", "scatter_add", "scatter_add_", "scatter_reduce"):
+        # scatter does not broadcast: only the entries of `src` covered by `index` are written.  A
+        # source that is larger than the index along an axis (an index built without the fold axis,
+        # shape (1, ..) against (F, ..)) silently drops the rest -- every fold but the first stays 0
+        idx, src = kw("index", 1), kw("src", 2)
+        if isinstance(idx, TensorV) and isinstance(src, TensorV) and len(idx.shape) == len(src.shape):
+            for k_, (di, ds) in enumerate(zip(st.norm_shape(idx.shape), st.norm_shape(src.shape))):
+                if di != ds and st.decide(ds - di, "==") is not True:
+                    raise ShapeError(f"{op}: the index has extent {di!r} and the source {ds!r} along axis {k_}; scatter writes only the entries the index covers (no broadcasting), so the rest of the source is dropped", node)
+        return t
+    if op == "index_add":
         return t
     return unk(f"torch op {op}")
 
